@@ -250,7 +250,7 @@ ALIAS_FORMS = [("%(n)s = %(w)s", False), ("%(w)s = %(n)s", False), ("%(n)s - %(w
                ("-%(n)s = %(w)s", True), ("0 = %(w)s + %(n)s", True)]
 
 
-def gen_alias_model(rng, affine=False):
+def gen_alias_model(rng, affine=False, late=False):
     """ALIAS-GRAPH stream: a forest of alias equations (every orientation, sign and spelling, any
     equation order) over algebraic variables, der(states), states, inputs, parameters and constants
     that stay symbolic.  Every unknown (algebraic variable or der(x)) is defined by exactly one
@@ -343,6 +343,42 @@ def gen_alias_model(rng, affine=False):
             eqs.append("%s = %s" % (n, num(v)))
             val[n] = v
         defined.append(n)
+    n_late = 0
+    if late:
+        # MULTI-PASS: an alias that only appears in pass 2+.  `b = [-]w` forms a group in pass 1;
+        # `d = b -/+ w + k` collapses to the constant assignment d = k once b is eliminated;
+        # eliminate_constant_assignments + replace_constant_values of the NEXT pass turn
+        # `c = w + d - k` (or `c = d * w`, `c = d - w`) into an alias that attaches the new algebraic
+        # variable c to the group of w (w: input, state, der, parameter, constant or algebraic)
+        for j in range(rng.randint(1, 2)):
+            w = rng.choice(anchors) if anchors and rng.random() < 0.75 else rng.choice(defined)
+            b, d, c = "b%d" % (j + 1), "d%d" % (j + 1), "e%d" % (j + 1)
+            neg = rng.random() < 0.4
+            form, _ = rng.choice([f for f in ALIAS_FORMS if f[1] == neg])
+            eqs.append(form % {"n": b, "w": w})
+            val[b] = -val[w] if neg else val[w]
+            shape = rng.choice(["sum0", "sumk", "prod1", "negsum0"])
+            k = {"sum0": F(0), "negsum0": F(0), "prod1": F(1), "sumk": dy(rng, nonzero=True)}[shape]
+            dtext = "%s %s %s" % (b, "+" if neg else "-", w)
+            if k != 0:
+                dtext += " + %s" % num(k)
+            eqs.append("%s = %s" % (d, dtext))
+            val[d] = k
+            if shape == "sum0":
+                ctext, cv = rng.choice(["%s + %s" % (w, d), "%s + %s" % (d, w)]), val[w]
+            elif shape == "sumk":
+                ctext, cv = "%s + %s - %s" % (w, d, num(k)), val[w]
+            elif shape == "prod1":
+                ctext, cv = rng.choice(["%s * %s" % (d, w), "%s * %s" % (w, d)]), val[w]
+            else:
+                ctext, cv = "%s - %s" % (d, w), -val[w]
+            eqs.append(rng.choice(["%s = %s", "%s = %s"]) % (c, ctext) if rng.random() < 0.7
+                       else "%s = %s" % (ctext, c))
+            val[c] = cv
+            for n in (b, d, c):
+                decl.append("Real %s;" % n)
+            n_late += 3
+            kinds["late_alias_" + shape] = kinds.get("late_alias_" + shape, 0) + 1
     for x in states:
         if rng.random() < 0.5:
             w = rng.choice(defined)
@@ -351,7 +387,7 @@ def gen_alias_model(rng, affine=False):
     text = "model M\n  %s\nequation\n  %s;\n%send M;\n" % (
         "\n  ".join(decl), ";\n  ".join(eqs),
         ("initial equation\n  %s;\n" % ";\n  ".join(ieqs)) if ieqs else "")
-    return {"text": text, "cls": "M", "val": val, "kinds": kinds, "n_unknowns": len(todo),
+    return {"text": text, "cls": "M", "val": val, "kinds": kinds, "n_unknowns": len(todo) + n_late,
             "elim_graph": {}, "names": sorted(val)}
 
 
@@ -728,7 +764,7 @@ def build_cases(ctx):
     except OSError:
         pass
     n_corpus = len(cases)
-    n_models = ctx.scaled(60, 150)
+    n_models = ctx.scaled(48, 150)
     per = ctx.scaled(8, 16)
     full = all_option_sets()
     for mi in range(n_models):
@@ -749,6 +785,14 @@ def build_cases(ctx):
         mdl = gen_alias_model(rng)
         for _ in range(ctx.scaled(3, 4)):
             cases.append(make_case(rng, mdl, gen_alias_options(rng)))
+    # multi-pass stream: aliases that only appear in pass 2+ (iterative_simplification; in the correspondence)
+    for _ in range(ctx.scaled(24, 250)):
+        mdl = gen_alias_model(rng, late=True)
+        for _ in range(2):
+            o = gen_alias_options(rng)
+            o.update({"iterative_simplification": True, "eliminate_constant_assignments": True,
+                      "replace_constant_values": rng.random() < 0.85})
+            cases.append(make_case(rng, mdl, o))
     # oracle-only stream: options outside the modelled set (preconditions of the property respected:
     # no reduce_affine_expression on non-affine models, no factor_and_simplify with zero factors)
     extra = []
@@ -771,6 +815,15 @@ def build_cases(ctx):
             o["replace_constant_values"] = rng.random() < 0.4
             o["reduce_affine_expression"] = True
         extra.append(make_case(rng, mdl, o))
+    # oracle-only: the same multi-pass models with EXPLICITLY repeated simplify() calls
+    for _ in range(ctx.scaled(10, 100)):
+        mdl = gen_alias_model(rng, late=True)
+        o = gen_alias_options(rng)
+        o.update({"iterative_simplification": rng.random() < 0.3, "eliminate_constant_assignments": True,
+                  "replace_constant_values": rng.random() < 0.85})
+        c = make_case(rng, mdl, o)
+        c["repeat"] = rng.randint(2, 4)
+        extra.append(c)
     # oracle-only: contradictory alias pairs (a = b; a = -b: both zero).  Not in the correspondence:
     # the model mirrors fixes/C14_contradictory_alias_keeps_equation.diff
     for _ in range(ctx.scaled(10, 60)):
@@ -874,7 +927,7 @@ def shared_run(ctx, judge, pid):
     ctx.cov["rule"] = ("%d generated models with a constructed unique solution x option sets (%d cases in the "
                        "modelled option set, %d oracle-only cases with an unmodelled option, corpus %d); "
                        "non-trivial = simplify() removed at least one unknown; distinct by (model text, options)"
-                       % (ctx.scaled(60, 150), len(cases), len(extra), n_corpus))
+                       % (ctx.scaled(48, 150), len(cases), len(extra), n_corpus))
     ctx.cov["samples"] = [{"text": cases[n_corpus]["text"], "options": cases[n_corpus]["options"]},
                           {"text": cases[-1]["text"], "options": cases[-1]["options"]}]
     ctx.notes["input_distribution"] = {"mechanisms": kinds, "options_true": optc, "simplified": n_ok,
